@@ -75,7 +75,7 @@ func (ups *Http) Connect(manager cert.TlsConfig, mustSecure bool) error {
 	cert.PrintPeerCertificates(c.UnderlyingConn())
 
 	stream = streams.NewWebsocketTunnelConnection(c)
-	cc, err := socketace.NewClientConnection(stream, manager, secure, ups.Address.Host)
+	cc, err := socketace.NewClientConnection(stream, manager, secure, ups.Address.Hostname())
 	if err != nil {
 		return errors.Wrapf(err, "Could not open connection")
 	} else if mustSecure && !cc.Secure() {
